@@ -477,7 +477,7 @@ impl<'a> SeqModel<'a> {
                                     )
                                 })
                                 .unwrap_or(false);
-                        if only_nonconsuming && prev != text {
+                        if only_nonconsuming && snap_core(prev) != snap_core(text) {
                             let (rule, facts) = classify_snap_change(prev, text);
                             let mut f = Finding::new(
                                 rule,
@@ -723,6 +723,30 @@ impl<'a> SeqModel<'a> {
     }
 }
 
+/// The reclamation bookkeeping proper (per-file counters, per-block flags) of a snapshot text.
+fn snap_core(text: &str) -> (serde_json::Value, serde_json::Value) {
+    let v = serde_json::from_str::<serde_json::Value>(text).unwrap_or(serde_json::Value::Null);
+    (v["files"].clone(), v["blocks"].clone())
+}
+
+/// Was sealed block `id` fully passed by its topic's consumer, according to the reader state in snapshot `snap`?
+/// None: the block is in no topic's sealed chain.
+fn block_consumed_in(snap: &serde_json::Value, id: u64) -> Option<bool> {
+    for t in snap["topics"].as_array()? {
+        let cur_idx = t[2].as_u64().unwrap_or(0);
+        let cur_off = t[3].as_u64().unwrap_or(0);
+        if let Some(chain) = t[4].as_array() {
+            for (i, b) in chain.iter().enumerate() {
+                if b[0].as_u64() == Some(id) {
+                    let used = b[1].as_u64().unwrap_or(0);
+                    return Some(cur_idx > i as u64 || (cur_idx == i as u64 && cur_off >= used));
+                }
+            }
+        }
+    }
+    None
+}
+
 /// What changed between two reclamation snapshots. "c02.reclaim_marked": the only change is that
 /// some blocks went from not-consumed to consumed and each file's consumed counter rose by exactly
 /// the number of its blocks that flipped. Anything else is "c02.reclaim_state_changed".
@@ -730,6 +754,7 @@ fn classify_snap_change(before: &str, after: &str) -> (&'static str, Vec<(String
     let parse = |s: &str| serde_json::from_str::<serde_json::Value>(s).unwrap_or(serde_json::Value::Null);
     let (b, a) = (parse(before), parse(after));
     let mut other = false;
+    let mut marked_unconsumed = 0i64;
     let mut flips: BTreeMap<String, i64> = BTreeMap::new();
     let (bb, ab) = (b["blocks"].as_array().cloned().unwrap_or_default(), a["blocks"].as_array().cloned().unwrap_or_default());
     if bb.len() != ab.len() {
@@ -741,6 +766,11 @@ fn classify_snap_change(before: &str, after: &str) -> (&'static str, Vec<(String
         } else if x[2] != y[2] {
             if x[2] == serde_json::json!(false) && y[2] == serde_json::json!(true) {
                 *flips.entry(x[1].as_str().unwrap_or("").to_string()).or_insert(0) += 1;
+                // had the consumer passed this block before the non-consuming call?
+                match block_consumed_in(&b, x[0].as_u64().unwrap_or(u64::MAX)) {
+                    Some(true) => {}
+                    _ => marked_unconsumed += 1,
+                }
             } else {
                 other = true;
             }
@@ -766,6 +796,8 @@ fn classify_snap_change(before: &str, after: &str) -> (&'static str, Vec<(String
     let facts = vec![
         ("blocks_marked".to_string(), serde_json::json!(total_flips)),
         ("counter_excess".to_string(), serde_json::json!(counter_excess)),
+        // blocks that were marked consumed although the consumer had not passed them when the call began
+        ("marked_unconsumed".to_string(), serde_json::json!(marked_unconsumed)),
     ];
     if other {
         ("c02.reclaim_state_changed", facts)
